@@ -220,6 +220,21 @@ func dance(g *gen.G, start string, ztSeed int64) {
 		}
 		pr.Push(l, g.Pick(legal))
 	}
+	// sometimes the dance starts right after a double pawn step or a move that loses a castling right:
+	// the position with the en passant target / the old rights is a DIFFERENT position from the one the
+	// dance then repeats
+	if g.R.Intn(3) == 0 {
+		legal, _ := gen.LegalOf(l.B)
+		var special []board.Move
+		for _, m := range legal {
+			if m.Type == board.Jump || (m.Type == board.Normal && (m.Piece == board.King || m.Piece == board.Rook) && l.B.Position().Castling() != 0) {
+				special = append(special, m)
+			}
+		}
+		if len(special) > 0 {
+			pr.Push(l, special[g.R.Intn(len(special))])
+		}
+	}
 	var fork *gen.Live
 	if g.R.Intn(3) == 0 {
 		fork = pr.Fork(l) // repetition spanning a fork: the fork continues the dance
